@@ -199,7 +199,7 @@ func (p c18) Run(t *testing.T, c *Case, s Sched, keepLog bool) *Obs {
 			live.Findings = append(live.Findings, Finding{Class: class, Detail: detail, Narrow: narrow, Obs: []int{0}})
 		}
 	}
-	cmds, _, err := parser.ParseCommands(nil, "sim", c.Src)
+	cmds, comments, err := parser.ParseCommands(nil, "sim", c.Src)
 	if err != nil || len(cmds) == 0 {
 		o.Extra["skip"] = fmt.Sprint("not accepted: ", err)
 		o.Dump = "skipped"
@@ -411,6 +411,45 @@ func (p c18) Run(t *testing.T, c *Case, s Sched, keepLog bool) *Obs {
 		}
 		if again, ok := freeOut(ci); ok && !bytes.Equal(again, out) {
 			add("print-changed-after-faults", fmt.Sprintf("fault-free print differs after failed prints (config %d)", ci), narrow(ci, "", 0))
+		}
+	}
+	// the other node kinds Fprint accepts (comment, word, word part): the comments this program came with and one
+	// synthesized node of each kind, to a writer failing after k bytes for every k
+	if c.Cfg < 0 && c.Writer.Kind == "all" {
+		others := []ast.Node{
+			&ast.Comment{Hash: ast.NewPos(1, 1), Text: " a comment"},
+			ast.Word{&ast.Lit{ValuePos: ast.NewPos(1, 1), Value: "word"}},
+			&ast.Lit{ValuePos: ast.NewPos(1, 1), Value: "part"},
+		}
+		for _, cm := range comments {
+			others = append(others, cm)
+		}
+		cfg := cfgFor(0)
+		for _, n := range others {
+			var free bytes.Buffer
+			if err, pn, _ := safePrint(cfg, &free, n); err != nil || pn != nil || free.Len() == 0 {
+				continue // what a fault-free print of such a node gives is not this lane's business
+			}
+			L := free.Len()
+			for k := 0; k < L && k < 64; k++ {
+				w := &gosim.SimWriter{Plan: gosim.WriterPlan{Kind: "fail", After: k}}
+				live.Calls++
+				err, pn, st := safePrint(cfg, w, n)
+				what := fmt.Sprintf("%T node, writer fail after %d of %d bytes", n, k, L)
+				if pn != nil {
+					add("print-panic", fmt.Sprintf("Fprint panicked with %s: %v\n%s", what, pn, st), nil)
+					continue
+				}
+				if w.Fired > 0 {
+					live.Fired++
+					o.Faults["writer-fail-other-node"]++
+				}
+				if err == nil {
+					add("write-error-lost", fmt.Sprintf("%s: Fprint returned nil", what), nil)
+				} else if !errors.Is(err, gosim.ErrInjected) {
+					add("write-error-replaced", fmt.Sprintf("%s: Fprint returned %v", what, err), nil)
+				}
+			}
 		}
 	}
 	o.Fired = live.Fired > 0
